@@ -233,6 +233,14 @@ theorem SameShapePerm.unmarked {p q : Pop W} (h : SameShapePerm p q) (hun : ∀ 
   simp only [Prod.mk.injEq] at hyx
   rw [← hyx.2]; exact this
 
+theorem SameShapePerm.uidInv {p q : Pop W} (h : SameShapePerm p q) (hu : UidInv p) : UidInv q := by
+  have huids := h.uids
+  obtain ⟨h1, h2, _, _⟩ := h
+  refine ⟨?_, ?_⟩
+  · intro u hu'
+    rw [h1]; exact hu.listed u (huids.mem_iff.mp hu')
+  · intro u hu'; rw [h1] at hu'; rw [h2]; exact hu.below u hu'
+
 /-- **the C02 invariants survive an evaluation that re-orders inside the species** (`sameShape_inv` for the
     permutation form) -/
 theorem sameShapePerm_inv (p q : Pop W) (h : SameShapePerm p q) (hu : UidInv p) (hs : SpIdInv p) : UidInv q ∧ SpIdInv q := by
